@@ -31,6 +31,7 @@ type FuzzStep struct {
 	Spelling int                 `json:"spelling"`
 	Method   string              `json:"method,omitempty"`
 	Header   map[string][]string `json:"header,omitempty"`
+	Reuse    bool                `json:"reuse,omitempty"`
 }
 
 // FuzzCase is one random history.
@@ -248,6 +249,7 @@ func genFuzzCase(r *rand.Rand, bias string) FuzzCase {
 		if len(h) > 0 {
 			st.Header = h
 		}
+		st.Reuse = chance(r, 0.12)
 		c.Steps = append(c.Steps, st)
 	}
 	return c
@@ -263,7 +265,8 @@ func fuzzHandler(c *FuzzCase, counts []int) sim.Handler {
 			}
 		}
 		if ri < 0 {
-			return Render(&RespSpec{Status: 404}, uc.Enter, uc.Serial)
+			// a resource of its own: anything stored for it under another key is foreign content
+			return Render(&RespSpec{Status: 200, CC: []string{"max-age=100000"}, BodySize: 9}, uc.Enter, uc.Serial)
 		}
 		fr := &c.Resources[ri]
 		k := counts[ri]
@@ -298,6 +301,9 @@ func fuzzHandler(c *FuzzCase, counts []int) sim.Handler {
 				return Render(&RespSpec{Status: st, BodySize: 4, CC: pick2(k, [][]string{nil, {"stale-if-error=60"}})}, uc.Enter, uc.Serial)
 			case matches && strings.HasPrefix(mode, "304"):
 				r304 := RespSpec{Status: 304, ETag: spec.ETag, Date: spec.Date, Vary: spec.Vary}
+				if k%4 == 1 {
+					r304.Age = []string{pick2(k/4, []string{"3", "50", "0", "100000000000000000000"})}
+				}
 				if mode == "304+" {
 					r304.CC = spec.CC
 					r304.Expires = spec.Expires
@@ -335,7 +341,7 @@ func runFuzzCase(c *FuzzCase, opt sim.WorldOpt, visit func(w *sim.World, in *mon
 		if st.DtS > 0 {
 			time.Sleep(time.Duration(st.DtS * float64(time.Second)))
 		}
-		spec := sim.ReqSpec{Method: st.Method, URL: fuzzSpellings[st.Spelling](c.Resources[st.Res].Path), Header: st.Header}
+		spec := sim.ReqSpec{Method: st.Method, URL: fuzzSpellings[st.Spelling](c.Resources[st.Res].Path), Header: st.Header, Reuse: st.Reuse}
 		ex := w.Do(spec)
 		in := mon.Classify(w, ex)
 		if Verbose {
